@@ -849,6 +849,26 @@ func vfC01Gen(rt *rapid.T) *vfC01Case {
 			c.Tamper.Edit = "corrupt-sigs"
 		}
 	}
+	// a validated alias whose target does not exist in an *insecure* zone, and that zone answers the bare way (header
+	// only): the alias's authenticity says nothing about the denial
+	bareAlias := ""
+	if rapid.IntRange(0, 2).Draw(rt, "barealias") == 0 {
+		for _, a := range apexes {
+			z := c.W.Zones[a]
+			var owners []string
+			for o := range z.Targets {
+				owners = append(owners, o)
+			}
+			sort.Strings(owners)
+			for _, o := range owners {
+				g := c.W.Resolve(o, dns.TypeA)
+				if bareAlias == "" && len(g.Steps) == 1 && g.Steps[0].Secure && g.Steps[0].Type == dns.TypeCNAME && g.Out.Kind == "nxdomain" && g.Zone != nil && !g.Zone.Signed && !g.Loop {
+					bareAlias = o
+					c.Tamper = &vfC01Tamper{Zone: g.Zone.Apex, Kind: "nxdomain", Edit: "empty"}
+				}
+			}
+		}
+	}
 	// label-boundary impostor: an owner whose first label holds a literal dot ("t\.example.test." in test.) is
 	// re-signed by the zone its spelling resembles (example.test.), which is no ancestor of it
 	confusable := ""
@@ -887,6 +907,9 @@ func vfC01Gen(rt *rapid.T) *vfC01Case {
 			st.Name, st.Qtype = prev.Name, prev.Qtype
 		} else {
 			st.Name, st.Qtype = vfworld.GenQuestion(rt, c.W)
+		}
+		if bareAlias != "" && prev == nil {
+			st.Name, st.Qtype, st.CD, st.EDNS, st.DO = bareAlias, dns.TypeA, false, true, true
 		}
 		if confusable != "" && prev == nil {
 			st.Name, st.Qtype, st.CD = confusable, rapid.SampledFrom([]uint16{dns.TypeA, dns.TypeTXT}).Draw(rt, "confusableqtype"), false
